@@ -3,6 +3,36 @@
 F64 = "math/src/field/f64/mod.rs"
 F62 = "math/src/field/f62/mod.rs"
 F128 = "math/src/field/f128/mod.rs"
+REAL_FFT = "math/src/fft/real_u64.rs"
+MDS12 = "crypto/src/hash/mds/mds_f64_12x12.rs"
+MDS8 = "crypto/src/hash/mds/mds_f64_8x8.rs"
+RESCUE = "crypto/src/hash/rescue/mod.rs"
+RP64 = "crypto/src/hash/rescue/rp64_256/mod.rs"
+RPJIVE = "crypto/src/hash/rescue/rp64_256_jive/mod.rs"
+RP62 = "crypto/src/hash/rescue/rp62_248/mod.rs"
+
+
+def _mds_spec(path, out, ns):
+    """frequency-domain MDS multiplication (C16): real-FFT kernels + blocks + the limb split / fold of
+    `mds_multiply`, all as BitVec code; `BaseElement::ZERO` is f64's own translated `new(0)`."""
+    return {
+        "file": path, "out": out, "namespace": ns, "elem": "u64", "zero_one_via_new": True,
+        "imports": ["Wf.Gen.F64"],
+        "extern": {"new": ("Wf.Gen.F64.new", ["u64"], "E", [], "kernel", [])},
+        "consts": ["MDS_FREQ_BLOCK_ONE", "MDS_FREQ_BLOCK_TWO", "MDS_FREQ_BLOCK_THREE"],
+        "fns": [
+            {"name": "fft2_real", "file": REAL_FFT, "mode": "kernel"},
+            {"name": "ifft2_real_unreduced", "file": REAL_FFT, "mode": "kernel"},
+            {"name": "fft4_real", "file": REAL_FFT, "mode": "kernel"},
+            {"name": "ifft4_real_unreduced", "file": REAL_FFT, "mode": "kernel"},
+            {"name": "block1", "mode": "kernel"},
+            {"name": "block2", "mode": "kernel"},
+            {"name": "block3", "mode": "kernel"},
+            {"name": "mds_multiply_freq", "mode": "kernel"},
+            {"name": "mds_multiply", "mode": "kernel"},
+        ],
+    }
+
 
 SPECS = {
     "f64": {
@@ -69,6 +99,33 @@ SPECS = {
             {"name": "mul", "anchor": "impl ExtensibleField<2> for BaseElement", "mode": "formula", "lean": "ext2Mul", "key": "ext2_mul"},
             {"name": "mul_base", "anchor": "impl ExtensibleField<2> for BaseElement", "mode": "formula", "lean": "ext2MulBase", "key": "ext2_mul_base"},
             {"name": "frobenius", "anchor": "impl ExtensibleField<2> for BaseElement", "mode": "formula", "lean": "ext2Frobenius", "key": "ext2_frobenius"},
+        ],
+    },
+    # C16 ---------------------------------------------------------------------------------------
+    "mds12": _mds_spec(MDS12, "RescueMds12.lean", "Wf.Gen.RescueMds12"),
+    "mds8": _mds_spec(MDS8, "RescueMds8.lean", "Wf.Gen.RescueMds8"),
+    "rescuechains": {
+        # S-boxes: ONE lane of the pointwise array code, polymorphic over FieldOps
+        "file": RESCUE, "out": "RescueChains.lean", "namespace": "Wf.Gen.RescueChains",
+        "fns": [
+            {"name": "exp_acc", "file": RESCUE, "mode": "formula", "lanes": True, "drop_consts": ["N"]},
+            {"name": "apply_inv_sbox", "file": RP64, "mode": "formula", "lanes": True, "lean": "rp64InvSbox", "key": "rp64_inv_sbox"},
+            {"name": "apply_inv_sbox", "file": RPJIVE, "mode": "formula", "lanes": True, "lean": "jiveInvSbox", "key": "jive_inv_sbox"},
+            {"name": "apply_inv_sbox", "file": RP62, "mode": "formula", "lanes": True, "lean": "rp62InvSbox", "key": "rp62_inv_sbox"},
+            {"name": "apply_sbox", "file": RP62, "mode": "formula", "lanes": True, "lean": "rp62Sbox", "key": "rp62_sbox"},
+        ],
+    },
+    "rescueconsts": {
+        "kind": "natconsts", "out": "RescueConsts.lean", "namespace": "Wf.Gen.RescueConsts",
+        "groups": [
+            {"file": RP64, "ns": "Rp64", "consts": ["STATE_WIDTH", "NUM_ROUNDS", "ALPHA", "INV_ALPHA"],
+             "ranges": ["RATE_RANGE", "INPUT1_RANGE", "INPUT2_RANGE", "CAPACITY_RANGE", "DIGEST_RANGE"],
+             "derived": ["RATE_WIDTH", "DIGEST_SIZE"], "tables": ["MDS", "INV_MDS", "ARK1", "ARK2"]},
+            {"file": RPJIVE, "ns": "Jive", "consts": ["STATE_WIDTH", "NUM_ROUNDS", "ALPHA", "INV_ALPHA"],
+             "ranges": ["RATE_RANGE", "INPUT1_RANGE", "INPUT2_RANGE", "CAPACITY_RANGE", "DIGEST_RANGE"],
+             "derived": ["RATE_WIDTH", "DIGEST_SIZE"], "tables": ["MDS", "INV_MDS", "ARK1", "ARK2"]},
+            {"file": RP62, "ns": "Rp62", "consts": ["STATE_WIDTH", "RATE_WIDTH", "DIGEST_SIZE", "NUM_ROUNDS", "ALPHA", "INV_ALPHA"],
+             "tables": ["MDS", "ARK1", "ARK2"]},
         ],
     },
     "fieldconsts": {
